@@ -41,7 +41,9 @@ var c16SourceFaults = map[string][]string{
 	"malformed-directive": {"##!> include inc1 @ ~", "##!> define sep a b", "##!> define na.me x", "##!> include-except", "##!> include-except inc1", "##!> include", "##!> define x", "##!> define",
 		"##!> include  inc1 extra", "##!> cmdline unix windows", "##!> assemble x", "##!> include inc1 -"},
 	// prefix / suffix lines that make the joined expression malformed around well-formed entries
-	"malformed-affix": {"##!$ )", "##!^ (foo", "##!$ a)", "##!^ (?i", "##!$ \\", "##!^ [a-", "##!^ (", "##!$ ]x[", "##!^ x{2,1}"},
+	// (only lines that stay malformed whatever other prefix and suffix lines the file has: a lone backslash or an
+	// open class would be completed by a following `\b`)
+	"malformed-affix": {"##!$ )", "##!^ (foo", "##!$ a)", "##!^ (?i", "##!^ (", "##!$ ]x)", "##!^ x{2,1}"},
 	// a directory sits where the include / exclude file is expected (it can be opened, reading it fails)
 	"include-is-directory":     {"##!> include dirinc", "##!> include-except dirinc exc1", "##!> include-except inc1 dirinc", "##!> include dirinc -- a b"},
 	"missing-include-absolute": {"##!> include /nonexistent/dir/birds", "##!> include-except /nonexistent/a exc1", "##!> include-except inc1 /nonexistent/x", "##!> include /nonexistent/dir/birds.ra", "##!> include /nonexistent/dir/birds -- a b"},
